@@ -2,6 +2,7 @@ import CgtModel.Report
 import CgtModel.Spec
 import CgtModel.Fx
 import CgtModel.Dsl
+import CgtModel.Awards
 /-! Line protocol: token parsers and printers shared by all driver commands. -/
 namespace Cgt.Wire
 open Cgt
@@ -283,6 +284,32 @@ def showParseErr : Dsl.ParseErr → String
   | .invalidDate n => s!"err invalidDate {n}"
   | .invalidCurrency n => s!"err invalidCurrency {n}"
   | .invalidDecimal n => s!"err invalidDecimal {n}"
+
+def parseOptRat? (s : String) : Option (Option (Option Rat)) :=
+  if s = "-" then some none
+  else if s = "~" then some (some none)
+  else (parseRat? s).map (fun x => some (some x))
+
+/-- `vd|-,vf|-|~,fp|-|~` -/
+def parseDetail? (s : String) : Option Awards.Detail :=
+  match s.splitOn "," with
+  | [vd, vf, fp] =>
+    let vd? : Option (Option Int) := if vd = "-" then some none else (parseInt? vd).map some
+    match vd?, parseOptRat? vf, parseOptRat? fp with
+    | some vd, some vf, some fp => some { vestDate := vd, vestFmv := vf, fmvPrice := fp }
+    | _, _, _ => none
+  | _ => none
+
+/-- `ord|V/N/U|SYMBOL|detail;detail…` (`|` separated; no details: empty last field) -/
+def parseAward? (s : String) : Option Awards.Award :=
+  match s.splitOn "|" with
+  | [ord, act, sym, ds] =>
+    let act? : Option Awards.ActionKind := match act with | "V" => some .vesting | "N" => some .nonVesting | "U" => some .unknown | _ => none
+    let ds? := if ds = "" then some [] else parseAll parseDetail? (ds.splitOn ";")
+    match parseInt? ord, act?, ds? with
+    | some o, some a, some ds => some { date := o, action := a, symbol := sym, details := ds }
+    | _, _, _ => none
+  | _ => none
 
 def showCalcErr (l : List Tx) : CalcErr → String
   | .matcher e => showMErr l e
